@@ -15,6 +15,7 @@ import Ivg.Gen.Tie.Code.Encoder4
 import Ivg.Gen.Tie.Code.Encoder5
 import Ivg.Gen.Tie.Code.Encoder6
 import Ivg.Gen.Tie.Code.Vec
+import Ivg.Gen.Tie.Code.Encoder7
 import Ivg.Obligations
 /-!
 # C17 — the output of an Encoder / Renderer depends only on the calls since its last Reset
@@ -344,4 +345,5 @@ end Ivg.Props.C17
   Ivg.Gen.Tie.wfEnc_runOps,
   Ivg.Props.C17.adapter_reuse, Ivg.Props.C17.adapter_reuse_after_drawing,
   -- regenerated code (translator): (*vec.Rasterizer).Draw, the library rasteriser an opaque object
-  Ivg.Gen.Tie.vecDraw_code_tie]
+  Ivg.Gen.Tie.vecDraw_code_tie,
+  Ivg.Gen.Tie.scratch_readback, Ivg.Gen.Tie.setNReg_code_tie, Ivg.Gen.Tie.setNReg_code_tie_state]
